@@ -201,8 +201,10 @@ Qed.
 
 Lemma inv_keep_done s m s' : Inv s -> step s (LKeepDone m) = Some s' -> Inv s'.
 Proof.
-  intros [Ik Il Iw If Ib Ig Ia] H; cbn in H.
-  destruct (lease (mems s m)) as [| |id e|] eqn:El; try discriminate.
+  intros I H; cbn in H.
+  destruct (lease (mems s m)) as [| |id e|] eqn:El; try discriminate;
+    [|inversion H; subst; exact I].   (* Closed: a late response changes nothing *)
+  destruct I as [Ik Il Iw If Ib Ig Ia].
   destruct (ka_start (mems s m)) as [st|] eqn:Ek; [|discriminate].
   pose proof (Ia _ _ Ek) as Hst.
   destruct (Il _ _ _ El) as (_ & _ & Hb).
@@ -382,7 +384,8 @@ Proof.
     + apply sawown_do_close; assumption.
   - destruct (lease (mems s m)); try discriminate. destruct (won (mems s m)); inj.
     apply sawown_set; [assumption|reflexivity].
-  - destruct (lease (mems s m)) as [| |id e|]; try discriminate. destruct (ka_start (mems s m)); [|discriminate].
+  - destruct (lease (mems s m)) as [| |id e|]; try discriminate; [|inj; assumption].
+    destruct (ka_start (mems s m)); [|discriminate].
     destruct (leases s id) as [[e' ttl]|].
     + destruct (now s <=? e'); inj.
       * intros m' kv. cbn. unfold upd. destruct (Nat.eqb_spec m' m); [subst; cbn|]; apply Hs.
